@@ -107,6 +107,18 @@ def explore(ctx):
             desc["lib"] = {"public.postscriptNames": {"swap": {a: b, b: a}, "chain": {a: b, b: c, c: "glyph.c"},
                                                       "plain": {a: "uni0041.x", b: "glyph00002"},
                                                       "collide": {a: "dup", b: "dup", c: "dup.1"}}[kind]}
+        # the advance a 'CFF ' table carries is encoded relative to the Private dict's nominalWidthX / defaultWidthX: fonts
+        # where zero is the most frequent advance (defaultWidthX = 0) and fonts that set the two values explicitly
+        wkind = ["plain", "plain", "mostly-zero-width", "explicit-default-0", "plain", "explicit-both", "mostly-zero-width", "plain"][i % 8]
+        if wkind == "mostly-zero-width":
+            for g in desc["glyphs"][:-1]:
+                g["width"] = Fr(0)
+            desc["glyphs"][-1]["width"] = Fr(620)
+        elif wkind == "explicit-default-0":
+            desc["info"] = dict(desc.get("info", {}), postscriptDefaultWidthX=0, postscriptNominalWidthX=543)
+        elif wkind == "explicit-both":
+            desc["info"] = dict(desc.get("info", {}), postscriptDefaultWidthX=int(desc["glyphs"][0]["width"]), postscriptNominalWidthX=-20)
+        ctx.klass("cff widths:" + wkind)
         base = None
         for opt, subr, ver in GRID:
             kw = {"optimizeCFF": opt, "cffVersion": ver, "useProductionNames": prod}
@@ -138,6 +150,16 @@ def explore(ctx):
                    "hmtx": {n: tt["hmtx"][n] for n in tt.getGlyphOrder()},
                    "layout": {t: tt.reader[t] for t in ("GSUB", "GPOS", "GDEF") if t in tt.reader},
                    "cff_tag": "CFF2" if "CFF2" in tt else "CFF "}
+            if "CFF " in tt:
+                # the advance stored in each charstring (decoded with the Private dict's default / nominal width) is the hmtx one
+                from fontTools.pens.basePen import NullPen
+                td = tt["CFF "].cff.topDictIndex[0]
+                for n in order:
+                    cs = td.CharStrings[n]
+                    cs.draw(NullPen())
+                    if cs.width != tt["hmtx"][n][0]:
+                        ctx.spec_failure(dict(case, glyph=n), "the 'CFF ' charstring of %r carries advance %r, hmtx says %r" % (n, cs.width, tt["hmtx"][n][0]))
+                        break
             if obs["cff_tag"] != ("CFF2" if ver == 2 else "CFF "):
                 ctx.spec_failure(case, "requested cffVersion %d but the font has %r" % (ver, obs["cff_tag"]))
             if base is None:
